@@ -81,6 +81,19 @@ def run(ctx: Ctx):
     ctx.ob("C16-O2", "R4 SIGN-UNIT", k, "DP maximises sign * value with sign = -1 exactly when minimizing", "sign = -1 if minimize else 1" in t and "vals = [sign * v for v in values]" in t and "v_i = vals[i]" in t, "", node=k.node)
     ctx.ob("C16-O2", "R18 table", k, "scaled weights are positive for positive weights and 0 only for weight 0", "int_weights = [max(1, int(w * scale)) if w > 0 else 0 for w in weights]" in t, "", node=k.node)
 
+    # O4 exactness gate: integral data is never rescaled (the DP is exact only on the unscaled integers)
+    tic = ctx.func("knapsack", "_to_int_capacity")
+    tcfg = cfg_of(tic.node)
+    tgv = GuardView(tcfg)
+    exact = [n for n in own_nodes(tic.node) if isinstance(n, ast.Return) and isinstance(n.value, ast.Tuple) and ast.unparse(n.value) == "(int(capacity), 1.0)"]
+    ok = len(exact) == 1
+    if ok:
+        at = tgv.guard_atoms(tcfg.node_of(exact[0]), stable_only=False)
+        ok = at == {"T:all((v == int(v) for v in all_vals))"}
+    ctx.ob("C16-O4", "R1 STATUS-GUARD", tic, "integral capacity and weights take the exact path (scale 1) unconditionally", ok, "any further condition sends integer data through the rounding path, where light items are rounded up and the DP rejects subsets that fit - still labelled OPTIMAL", node=exact[0] if exact else tic.node)
+    av = [n.value for n in own_nodes(tic.node) if isinstance(n, ast.Assign) and ast.unparse(n.targets[0]) == "all_vals"]
+    ctx.ob("C16-O4", "R1 STATUS-GUARD", tic, "the integrality test looks at the capacity and every positive weight", len(av) == 1 and ast.unparse(av[0]) == "[capacity] + [w for w in weights if w > 0]", "", node=tic.node)
+
     # ---- O3 bin packing
     b = ctx.func("bin_pack", "solve_bin_pack")
     cfg = cfg_of(b.node)
@@ -191,6 +204,11 @@ def _v_bin_optimal(tree):
     M.replace_expr(g, lambda e: M.src_is(e, "num_bins > 1"), M.expr("num_bins > 2"))
 
 
+def _v_scale_big_integers(tree):
+    g = M.find_func(tree, "_to_int_capacity")
+    M.replace_expr(g, lambda e: M.src_is(e, "all((v == int(v) for v in all_vals))"), M.expr("all((v == int(v) for v in all_vals)) and capacity <= 100000"))
+
+
 def _t_reformat(tree):
     pass
 
@@ -206,6 +224,7 @@ VARIANTS = [
     M.Variant("new bin index taken after the append", BP, _v_bin_index_after, "C16-O3"),
     M.Variant("best-fit ignores whether the item fits", BP, _v_bin_fit, "C16-O3"),
     M.Variant("two bins labelled OPTIMAL", BP, _v_bin_optimal, "C16-O3"),
+    M.Variant("huge integer capacities are down-scaled like decimals (seed C16-C)", KN, _v_scale_big_integers, "C16-O4"),
     M.Variant("twin: reformat knapsack", KN, _t_reformat, None),
     M.Variant("twin: reformat bin_pack", BP, _t_reformat, None),
 ]
